@@ -891,6 +891,9 @@ func c14CtxService(ctx *Ctx, i int) {
 }
 
 func runC14(ctx *Ctx) {
+	if ctx.Want(800000) {
+		defer c14Binary(ctx, 800000)
+	}
 	n := ctx.N(150, 3000)
 	forEachCase(ctx, n, func(i int, rng *rand.Rand) { c14Scripted(ctx, i, rng) })
 	if ctx.Want(n + 1000) {
